@@ -2,4 +2,10 @@
 # builds the verification machinery offline from files on disk
 set -e
 cd "$(dirname "$0")"
+export CARGO_NET_OFFLINE=true
+(cd harness && cargo build --release --offline)
+if [ -d shim ]; then
+  gcc -O2 -shared -fPIC -o shim/fjshim.so shim/fjshim.c -ldl -lpthread
+fi
+mkdir -p evidence replays
 exit 0
